@@ -56,6 +56,7 @@ class Profiler:
     enabled = options.args().profile
     # static profiler, global within one process
     profiler = None
+    pid = None
 
     def __init__(self, is_main=False):
         """Create a profiler."""
@@ -69,8 +70,14 @@ class Profiler:
             else:
                 self.enabled = True
                 self.filename = f'.profile-{os.getpid()}.prof'
-            if Profiler.profiler is None:
+            if Profiler.profiler is None or Profiler.pid != os.getpid():
+                if Profiler.profiler is not None:
+                    # inherited through fork from the main process, where
+                    # it is running: stop it here before this process starts
+                    # a profiler of its own
+                    Profiler.profiler.disable()
                 Profiler.profiler = cProfile.Profile()
+                Profiler.pid = os.getpid()
 
     def __enter__(self):
         """Start profiling, if ``--profile`` was given."""
